@@ -752,6 +752,19 @@ def run(ctx):
             if bool(got) != want:
                 wrong = (md, vd, ws, vs, bool(got))
                 break
+        # the names may be given as a list: what is compared with the dimension *tuple* of a variable must compare equal to it
+        mdst = [st for st in iter_stmts(mfn2.body) if isinstance(st, ast.Assign) and isinstance(st.targets[0], ast.Name) and st.targets[0].id == 'maskdims' and 'dims' in _names(st.value)
+                and not isinstance(st.value, ast.Call) or (isinstance(st, ast.Assign) and isinstance(st.targets[0], ast.Name) and st.targets[0].id == 'maskdims'
+                                                            and isinstance(st.value, ast.Call) and dotted(st.value.func) in ('tuple', 'list'))]
+        for st in mdst:
+            got_ = consteval.ev(st.value, {'dims': ['y', 'x']})
+            if got_ is consteval.UNK:
+                continue
+            if got_ == ('y', 'x'):
+                ctx.ok('R-WHEREAPPLY', 'dims as a list', wmask, '%s compares equal to a dimension tuple' % norm(st)[:40])
+            else:
+                ctx.violation(Finding('R-WHEREAPPLY', FILES, 'PseudoNetCDFFile.mask', st, 'dimension names given as a list are kept as a list (%s) and compared with the dimension tuple of each variable: the '
+                                      'comparison is never true, so mask(where=w, dims=[...]) silently masks nothing' % norm(st)[:40]))
         if wrong:
             ctx.violation(Finding('R-WHEREAPPLY', FILES, 'PseudoNetCDFFile.mask', wcond, 'for a mask tied to dimensions %s, a variable with dimensions %s, mask shape %s and value shape %s the mask is %s: '
                                   'a positional mask then %s' % (wrong[0], wrong[1], wrong[2], wrong[3], 'applied' if wrong[4] else 'not applied',
